@@ -33,11 +33,12 @@ struct Link
 	std::vector<std::string> frame_of_msg; // wire bytes of each message frame (confidentiality)
 	std::vector<std::string> delivered; // values returned by Receive for this link
 	bool tamper_body, tamper_iv, tamper_frame, send_failed, eof, closed_by_sender;
+	bool iv_flip, iv_insdel, body_other; int iv_delta; // IV frame: flips, insertions/deletions and their net length change
 	size_t array_len;                   // 0: single integers, >0 arrays of that length
 	bool collecting;                    // harness is inside a Send call on this link
 	std::string cur;                    // bytes of the Send call in progress
 	bool iv_seen;
-	Link() : src(0), dst(0), pipe(NULL), tamper_body(false), tamper_iv(false), tamper_frame(false),
+	Link() : src(0), dst(0), pipe(NULL), tamper_body(false), tamper_iv(false), tamper_frame(false), iv_flip(false), iv_insdel(false), body_other(false), iv_delta(0),
 		send_failed(false), eof(false), closed_by_sender(false), array_len(0), collecting(false), iv_seen(false) {}
 	size_t unreleased() const
 	{
@@ -329,7 +330,14 @@ static void tamper(World &W, const Op &op)
 		if (op.kind == "f_flip") f.bytes[off] = (char)(f.bytes[off] ^ (1 << (op.arg(3) % 8)));
 		else if (op.kind == "f_ins") f.bytes.insert(off, 1, (char)(op.arg(3) & 0xff));
 		else f.bytes.erase(off, 1);
-		if (iv_region && op.kind == "f_flip") l.tamper_iv = true; else l.tamper_body = true;
+		// An insertion and a deletion inside the IV that cancel out leave an IV of the right length with other
+		// content: IV-only damage like a flipped bit (the first cipher block is lost, the stream re-synchronises).
+		// A net length change shifts the whole stream: damage of the body.
+		if (iv_region && op.kind == "f_flip") l.iv_flip = true;
+		else if (iv_region) { l.iv_insdel = true; l.iv_delta += (op.kind == "f_ins") ? 1 : -1; }
+		else l.body_other = true;
+		l.tamper_iv = l.iv_flip || (l.iv_insdel && l.iv_delta == 0);
+		l.tamper_body = l.body_other || l.iv_delta != 0;
 		W.res.cnt["fault." + op.kind.substr(2) + (iv_region ? "_iv" : ((off - 0) < f.bytes.size() - W.maclen ? "_line" : "_tag"))]++;
 	}
 	else
